@@ -89,6 +89,23 @@ def helper_for_field(ctx: Ctx, rep: Report, field: str) -> Optional[Func]:
     return None
 
 
+def _positive_test(e: Optional[ast.AST], so: Func) -> Optional[ast.AST]:
+    """The returned expression when its truth means that a test *held*: a call of a helper of the object, an equality,
+    or bool() of one.  Negations, disjunctions, any()/all() over unknown collections and arithmetic do not count: reading
+    a field in such an expression says nothing about the field being covered when the value is truthy."""
+    while isinstance(e, ast.Call) and isinstance(e.func, ast.Name) and e.func.id == "bool" and len(e.args) == 1 and not e.keywords:
+        e = e.args[0]
+    if isinstance(e, ast.Call) and isinstance(e.func, ast.Attribute) and src(e.func.value) in ("self", "cls", "h") :
+        return e
+    if isinstance(e, ast.Compare) and len(e.ops) == 1 and isinstance(e.ops[0], ast.Eq):
+        return e
+    if isinstance(e, ast.BoolOp) and isinstance(e.op, ast.And):
+        parts = [_positive_test(v, so) for v in e.values]
+        if all(p is not None for p in parts):
+            return e
+    return None
+
+
 # ------------------------------------------------------------------ R03.1
 def r03_1(ctx: Ctx, rep: Report, rid: str = "R03.1") -> List[str]:
     rep.rule(rid)
@@ -113,7 +130,8 @@ def r03_1(ctx: Ctx, rep: Report, rid: str = "R03.1") -> List[str]:
         reach = reachable_without_edges(cfg, cfg.entry, cut)
         bad = []
         for r in truthy:
-            rf = expr_fields(ctx, so, r.ast.value, roots) if r.ast.value is not None else {}
+            rv = _positive_test(r.ast.value, so)
+            rf = expr_fields(ctx, so, rv, roots) if rv is not None else {}
             self_cov = f in rf.get("self", set()) and f in rf.get("other", set())
             if r in reach and not self_cov:
                 bad.append(r)
